@@ -93,6 +93,9 @@ def random_history(rng, hv, n_steps=None, allow=("range", "fdwra", "time", "manu
     n_steps = int(n_steps if n_steps is not None else rng.integers(0, 7))
     for _ in range(n_steps):
         op = str(rng.choice(allow))
+        if rng.random() < 0.2:
+            # the history continues on a copy / an object that came back from a worker process
+            steps.append(["recreated-by", gen.recreate_in_place(rng, hv)])
         if op == "range":
             r = rand_range(rng, hv.frequency)
             if rng.random() < 0.3:
